@@ -214,6 +214,35 @@ def run_case(case, ctx):
                 Rfull = numpy.array(R.data)
                 RT = numpy.real(numpy.einsum("aabb->ab", Rfull)).copy()
             Rscale = float(numpy.max(numpy.abs(Rfull)))
+        # the same rates whichever way the program arrived at the tensor in the eigenstate basis (R above: built in tensor form by the library's idiom): built in the operator
+        # form by the library's own idiom and converted later, the conversion being the first thing done with it in a new context;
+        # converted outside any context
+        from quantarhei.qm import RedfieldRelaxationTensor
+        sbi_ = agg.get_SystemBathInteraction()
+        routes = {}
+        with ctx.lib("Redfield tensor (other routes to the eigenstate-basis tensor)"):
+            ham.protect_basis()
+            with qr.eigenbasis_of(ham):
+                R2 = RedfieldRelaxationTensor(ham, sbi_, as_operators=True)
+            ham.unprotect_basis()
+            with qr.eigenbasis_of(ham):
+                R2.convert_2_tensor()
+                routes["operators, converted in a later context"] = numpy.real(numpy.einsum("aabb->ab", numpy.array(R2.data)))
+            ham.protect_basis()
+            with qr.eigenbasis_of(ham):
+                R3 = RedfieldRelaxationTensor(ham, sbi_, as_operators=True)
+                R4 = RedfieldRelaxationTensor(ham, sbi_, as_operators=True)
+            ham.unprotect_basis()
+            R3.convert_2_tensor()
+            with qr.eigenbasis_of(ham):
+                routes["operators, converted outside"] = numpy.real(numpy.einsum("aabb->ab", numpy.array(R3.data)))
+            with qr.eigenbasis_of(ham):
+                R4.Km
+                R4.convert_2_tensor()
+            with qr.eigenbasis_of(ham):
+                routes["operators, converted inside, read in another visit"] = numpy.real(numpy.einsum("aabb->ab", numpy.array(R4.data)))
+        for rname, rt in routes.items():
+            ctx.check("golden-rule-tight(tensor)", float(numpy.max(numpy.abs(rt - RT))), 1e-9 * Rscale, dict(det, what="population rates of the tensor, route: " + rname))
         dim = N + 1
         sc = float(numpy.max(numpy.abs(RR))) or 1e-300
         off = RR - numpy.diag(numpy.diag(RR))
